@@ -229,9 +229,23 @@ def hs_rec(ctx, domain, n, extra=(), stem="rec"):
 BAD_RE = re.compile(r"^BAD (\S+) (\d+) (.*)$", re.S)
 
 
+def take_lib_panics(ctx, events):
+    """lib.panic events (a panic inside libhaystack that escaped an operation's own monitors) are violations of the
+    property being checked: the operation gave no answer. They are judged here, not by a trace specification."""
+    rest = []
+    for e in events:
+        if e.get("op") == "lib.panic":
+            ctx.bads.append({"prop": ctx.pid, "i": e.get("i", 0), "module": "driver",
+                             "reason": '<<"panic inside libhaystack", "%s", "%s", "%s">>' % (e.get("vec_op"), str(e.get("msg"))[:160].replace('"', "'"), e.get("at")),
+                             "event": e})
+        else:
+            rest.append(e)
+    return rest
+
+
 def tlc_trace(ctx, module, events_path, shards=1, timeout=1800, per_shard_min=200):
     """validate an event file with spec/<module>.tla; returns list of bads. Sharded over processes."""
-    events = read_ndjson(events_path)
+    events = take_lib_panics(ctx, read_ndjson(events_path))
     n = len(events)
     if n == 0:
         return []
@@ -295,7 +309,7 @@ def tlc_trace(ctx, module, events_path, shards=1, timeout=1800, per_shard_min=20
 
 def tlc_trace_stateful(ctx, module, events_path, reset_op, shards=8, timeout=1800):
     """like tlc_trace, but shards are cut only in front of `reset_op` events (the trace spec keeps state between them)"""
-    events = read_ndjson(events_path)
+    events = take_lib_panics(ctx, read_ndjson(events_path))
     if not events:
         return []
     groups = []
@@ -422,7 +436,7 @@ def replay(pid, path):
     build()
     vec = d["vector"]
     ev = hs_run(ctx, [vec], stem="replay")
-    ctx.bads = tlc_trace(ctx, d["trace_module"], ev)
+    ctx.bads += tlc_trace(ctx, d["trace_module"], ev)
     mine = [b for b in ctx.bads if b["prop"] == pid]
     for b in mine:
         log("replayed: BAD %s %s" % (b["prop"], b["reason"][:600]))
